@@ -13,6 +13,48 @@ fn verif_dir() -> String {
   std::env::var("VERIF_DIR").unwrap_or_else(|_| "/verif".to_string())
 }
 
+/// Wall-clock reads in the library that do not go through `verif_hooks::now()`
+/// are outside the simulator's seams: whatever depends on them is not decided
+/// by these checks (and makes runs irreproducible). Reported as a note, never as
+/// a violation. Baseline: the `timestamp`-style read in observable.rs, which
+/// only ends up in item payloads the probes ignore, and the FakeClock test utility.
+fn seam_audit() {
+  fn walk(dir: &std::path::Path, out: &mut Vec<String>) {
+    let Ok(rd) = std::fs::read_dir(dir) else { return };
+    let mut entries: Vec<_> = rd.flatten().map(|e| e.path()).collect();
+    entries.sort();
+    for p in entries {
+      if p.is_dir() {
+        walk(&p, out);
+      } else if p.extension().map_or(false, |e| e == "rs") {
+        let Ok(text) = std::fs::read_to_string(&p) else { continue };
+        let lines: Vec<&str> = text.lines().collect();
+        for (i, l) in lines.iter().enumerate() {
+          if l.contains("#[cfg(test)]") {
+            break;
+          }
+          let t = l.trim_start();
+          if t.starts_with("//") {
+            continue;
+          }
+          if l.contains("Instant::now()") || l.contains("SystemTime::now()") {
+            let hooked = lines[i..(i + 5).min(lines.len())].iter().any(|x| x.contains("verif_hooks::now"));
+            if !hooked {
+              out.push(format!("{}:{}", p.display(), i + 1));
+            }
+          }
+        }
+      }
+    }
+  }
+  let mut found = Vec::new();
+  walk(std::path::Path::new("/repo/src"), &mut found);
+  found.retain(|f| !f.starts_with("/repo/src/observable.rs:4") && !f.starts_with("/repo/src/observable/fake_timer.rs"));
+  if !found.is_empty() {
+    eprintln!("NOTE: {} wall-clock read(s) in /repo/src outside the simulator's seams ({}): behaviour that depends on them is not decided by this check", found.len(), found.join(", "));
+  }
+}
+
 fn main() {
   let args: Vec<String> = std::env::args().collect();
   let checks = props::all_checks();
@@ -23,6 +65,7 @@ fn main() {
         Some("thorough") => Tier::Thorough,
         _ => Tier::Quick,
       };
+      seam_audit();
       match checks.iter().find(|c| c.id == id) {
         Some(pc) => framework::run_check(pc, tier, &verif_dir()),
         None => {
